@@ -30,14 +30,18 @@ pub fn sdk_context() -> Context {
 pub fn run_sdk_script(text: &str) -> Result<BTreeMap<String, String>, String> {
     let ctx = sdk_context();
     let (env, _o, _e, halt) = quiet_env();
-    // a run that does not end by itself is halted after 30 s (it then fails the comparison of results)
+    // a run that does not end by itself is halted after 30 s of processor time (what this process used:
+    // the script runs on its only busy thread; a machine crowded by other work must not turn a slow run
+    // into one that "does not end"), or 300 s by the clock; it then fails the comparison of results
     let done = Arc::new(AtomicBool::new(false));
     let timer = {
         let (done, halt) = (done.clone(), halt.clone());
         std::thread::spawn(move || {
             let start = std::time::Instant::now();
+            let cpu_start = crate::engine::process_cpu_ms();
+            let cpu_limit = (30_000.0 * (1.0 + (crate::engine::load_factor() - 1.0) * 0.5)) as u64;
             while !done.load(Ordering::SeqCst) {
-                if start.elapsed().as_secs() >= 30 {
+                if crate::engine::process_cpu_ms().saturating_sub(cpu_start) >= cpu_limit || start.elapsed().as_secs() >= 300 {
                     halt.store(true, Ordering::SeqCst);
                     return true;
                 }
@@ -50,7 +54,7 @@ pub fn run_sdk_script(text: &str) -> Result<BTreeMap<String, String>, String> {
     done.store(true, Ordering::SeqCst);
     let halted = timer.join().unwrap_or(false);
     if halted {
-        return Err("the run did not end within 30 s and was halted".to_string());
+        return Err("the run did not end within 30 s of processor time and was halted".to_string());
     }
     match r {
         Err(p) => Err(format!("panic: {}", p)),
